@@ -102,7 +102,8 @@ def run_case(case):
                         for s, cc, Es in zip(sh, cf, E):
                             out[k, :] += cc * (Es @ phi[(k + s) % nz, :])
                     return out * bz / dz
-                datas = [('const', np.full((nz, nq), 1.75)), ('dense', dense), ('dense-again', dense), ('dense-third', dense)]
+                cplx = (dense * (1 + 0.5j) + 0.25j)
+                datas = [('const', np.full((nz, nq), 1.75)), ('dense', dense), ('dense-again', dense), ('dense-third', dense), ('strided-real-view', np.real(cplx))]
                 if (p, rank) in ((1, 0), (3, 2)) and i == int(lay.shape[0]) - 1:
                     for a, b in itertools.product(range(nz), range(nq)):
                         e = np.zeros((nz, nq))
@@ -114,7 +115,7 @@ def run_case(case):
                     if r0 > 0 or io != 0:
                         nontriv += 1
                     try:
-                        pg.parallel_gradient(phi.copy(), i, der)
+                        pg.parallel_gradient(phi if name == 'strided-real-view' else phi.copy(), i, der)
                     except Exception as e:  # noqa
                         V('exception:' + type(e).__name__, '%s p=%d rank=%d local r index %d data=%s: %s: %s' % (tag, p, rank, i, name, type(e).__name__, e))
                         break
